@@ -34,6 +34,7 @@ type Solver struct {
 	declUF    map[string]bool
 	declTbl   map[string]bool
 	levels    [][]func() // undo actions per push level
+	asserted  [][]*Term  // assertions per push level (for CheckFresh)
 	Log       io.Writer  // optional transcript
 	Errors    int
 	Queries   int
@@ -104,6 +105,7 @@ func (s *Solver) Reset() {
 	s.declUF = map[string]bool{}
 	s.declTbl = map[string]bool{}
 	s.levels = [][]func(){nil}
+	s.asserted = [][]*Term{nil}
 }
 
 func (s *Solver) undo(f func()) {
@@ -116,6 +118,7 @@ func (s *Solver) undo(f func()) {
 func (s *Solver) Push() {
 	s.send("(push 1)\n")
 	s.levels = append(s.levels, nil)
+	s.asserted = append(s.asserted, nil)
 }
 
 func (s *Solver) Pop() {
@@ -125,6 +128,9 @@ func (s *Solver) Pop() {
 		f()
 	}
 	s.levels = s.levels[:n]
+	if len(s.asserted) > 1 {
+		s.asserted = s.asserted[:len(s.asserted)-1]
+	}
 }
 
 const cutSize = 30
@@ -217,6 +223,33 @@ func (s *Solver) Assert(t *Term) {
 	}
 	s.define(t)
 	s.send("(assert " + ref(t) + ")\n")
+	if n := len(s.asserted); n > 0 {
+		s.asserted[n-1] = append(s.asserted[n-1], t)
+	}
+}
+
+// CheckFresh decides the current assertion stack once more in a fresh solver process, without push/pop: z3 then
+// runs its non-incremental pipeline (full preprocessing + bit-blasting), which settles many queries the incremental
+// core gives up on within the timeout (measured: 0.7 s against 72 s on a C18 query). Used as a fall-back when the
+// incremental answer is unknown.
+func (s *Solver) CheckFresh() Result {
+	f, err := NewSolver(s.P, s.Argv, s.TimeoutMs)
+	if err != nil {
+		return Unknown
+	}
+	defer f.Close()
+	f.Log = nil
+	for _, lvl := range s.asserted {
+		for _, t := range lvl {
+			f.Assert(t)
+		}
+	}
+	r := f.Check()
+	s.Time += f.Time
+	if s.Log != nil {
+		fmt.Fprintf(s.Log, "; fresh-solver retry => %s\n", r)
+	}
+	return r
 }
 
 func (s *Solver) readLine() string {
